@@ -195,11 +195,47 @@ def rewrite_paths(text, counts):
 
 
 def rewrite_closure_params(text, counts):
-    """R10: `|_|` -> `|_p|`."""
+    """R10: `|_|` -> `|_p|`;  `|(a, b)| e` -> `|__p| { let (a, b) = __p; e }`."""
     def f(m):
         _count(counts, 'R10.closure')
         return '|_p|'
-    return re.sub(r'\|\s*_\s*\|', f, text)
+    text = re.sub(r'\|\s*_\s*\|', f, text)
+    while True:
+        toks = rsx.code_toks(rsx.lex(text))
+        hit = None
+        for i, t in enumerate(toks):
+            if t.text == '|' and i + 1 < len(toks) and toks[i + 1].text == '(' and (i == 0 or toks[i - 1].text in ('(', ',', '=', '{')):
+                c = rsx.match_close(toks, i + 1)
+                if c + 1 < len(toks) and toks[c + 1].text == '|':
+                    hit = (i, c)
+                    break
+        if not hit:
+            return text
+        i, c = hit
+        pat = text[toks[i + 1].start:toks[c].end]
+        b = c + 2
+        if toks[b].text == '{':
+            e = rsx.match_close(toks, b)
+            body_s, body_e = toks[b].start, toks[e].end
+        else:
+            depth = 0
+            j = b
+            while j < len(toks):
+                tt = toks[j]
+                if tt.kind == 'punct':
+                    if tt.text in rsx.OPEN:
+                        depth += 1
+                    elif tt.text in rsx.CLOSE:
+                        if depth == 0:
+                            break
+                        depth -= 1
+                    elif tt.text == ',' and depth == 0:
+                        break
+                j += 1
+            body_s, body_e = toks[b].start, toks[j - 1].end
+        body = text[body_s:body_e]
+        _count(counts, 'R10.closure')
+        text = text[:toks[i].start] + '|__p| { let %s = __p; %s }' % (pat, body) + text[body_e:]
 
 
 def make_pub(text, counts):
@@ -485,10 +521,11 @@ def build(unit_dir, repo='/repo', mutate=None):
     for ch in chunks:
         text = ch.text
         text = strip_docs_and_attrs(text, counts, derive_drop_all=(ch.name in derive_drop))
+        # unit-specific hoists (R8/R9/R13) are written against the original repository text
+        text = apply_user_rewrites(text, unit.get('rewrite', []), counts, ch.name)
         text = rewrite_macros(text, counts)
         text = rewrite_paths(text, counts)
         text = rewrite_closure_params(text, counts)
-        text = apply_user_rewrites(text, unit.get('rewrite', []), counts, ch.name)
         if mutate:
             text = mutate(ch.name, text)
         kind = ch.name.split(' ', 1)[0]
